@@ -208,6 +208,25 @@ Proof.
   f_equal. f_equal. apply flat_map_ext. intros p. rewrite (Hg p). reflexivity.
 Qed.
 
+Lemma view_list_sim c s t l : sim s t -> view_list c s l = view_list c t l.
+Proof.
+  intros (Hg & _). induction l as [|p u IH]; cbn [view_list]; [reflexivity|].
+  destruct (torus_adj c p) as [p'|]; [|reflexivity]. rewrite IH, (Hg p'). reflexivity.
+Qed.
+
+Lemma view_form_sim c s t f : sim s t -> view_form c s f = view_form c t f.
+Proof.
+  intros H. pose proof H as (Hg & _). destruct f; cbn [view_form].
+  - unfold view_col. destruct ((- c_w c <=? x) && (x <? c_w c)); [|reflexivity].
+    f_equal. f_equal. apply map_ext. intros y. apply Hg.
+  - destruct l; [reflexivity|]. rewrite (view_list_sim c s t _ H). reflexivity.
+  - unfold view_slice_y. destruct (torus_adj c (x, 0)); [|reflexivity]. f_equal. f_equal. apply map_ext. intros y. apply Hg.
+  - unfold view_slice_x. destruct (torus_adj c (0, y)); [|reflexivity]. f_equal. f_equal. apply map_ext. intros x. apply Hg.
+  - unfold view_slice_xy. f_equal. f_equal. apply flat_map_ext. intros x. apply map_ext. intros y. apply Hg.
+  - unfold view_cell_list.
+    assert (flat_map (grid s) l = flat_map (grid t) l) as -> by (apply flat_map_ext; exact Hg). reflexivity.
+Qed.
+
 (* every operation: related states give the same result and related states *)
 Lemma step_rel c s t o :
   Agree c s -> Agree c t -> sim s t -> rel (step c s o) (step c t o).
@@ -239,6 +258,8 @@ Proof.
   - split; [|exact H]. cbn [snd]. unfold view_agents.
     assert (flat_map (grid s) (all_cells c) = flat_map (grid t) (all_cells c)) as -> by (apply flat_map_ext; exact Hg).
     reflexivity.
+  - split; [|exact H]. cbn [snd]. apply view_form_sim. exact H.
+  - apply rel_same. exact H.
 Qed.
 
 (* obs_determines: related states produce the same observation stream for every continuation *)
@@ -283,3 +304,51 @@ Lemma toroidal_distance_least n d :
   0 < n -> (forall k, axis_dist true n d <= Z.abs (d + k * n)) /\
            (exists k, axis_dist true n d = Z.abs (d + k * n)).
 Proof. intros Hn. split; [intros k; exact (axis_dist_least n d k Hn)|exact (axis_dist_attained n d Hn)]. Qed.
+
+(* ------------------------------------------------------------------ the same for the grid with its layers *)
+Lemma lstep_rel c k s t L o :
+  Agree c s -> Agree c t -> sim s t ->
+  snd (lstep c k (s, L) o) = snd (lstep c k (t, L) o) /\
+  sim (fst (fst (lstep c k (s, L) o))) (fst (fst (lstep c k (t, L) o))) /\
+  snd (fst (lstep c k (s, L) o)) = snd (fst (lstep c k (t, L) o)).
+Proof.
+  intros Ha Hb H. destruct (is_layer_op o) eqn:El.
+  - destruct o; try discriminate. destruct l; cbn [lstep];
+      match goal with |- context [if ?b then _ else _] => destruct b end; cbn [fst snd];
+      (split; [reflexivity|split; [exact H|reflexivity]]).
+  - rewrite !(lstep_grid_op c k _ L o El). cbn [fst snd].
+    pose proof (step_rel c s t o Ha Hb H) as [Hr Hs]. split; [exact Hr|]. split; [exact Hs|reflexivity].
+Qed.
+
+Lemma lrun_obs_sim c n k ops : wf c -> forall s t L,
+  Agree c s -> Agree c t -> sim s t -> lrun_obs c n k (s, L) ops = lrun_obs c n k (t, L) ops.
+Proof.
+  intros Hwf. induction ops as [|o u IH]; intros s t L Ha Hb H; cbn [lrun_obs]; [reflexivity|].
+  pose proof (lstep_rel c k s t L o Ha Hb H) as (Hr & Hs & HL).
+  pose proof (lstep_grid c k s L o) as Gs. pose proof (lstep_grid c k t L o) as Gt.
+  destruct (lstep c k (s, L) o) as [[s' L1] r] eqn:E1. destruct (lstep c k (t, L) o) as [[t' L2] r'] eqn:E2.
+  cbn [fst snd] in *. subst r' L2.
+  assert (Ha' : Agree c s') by (rewrite Gs; apply step_agree; assumption).
+  assert (Hb' : Agree c t') by (rewrite Gt; apply step_agree; assumption).
+  rewrite (obs_state_sim c n s' t' Ha' Hb' Hs). f_equal. apply IH; assumption.
+Qed.
+
+(* C18 "continue" and the transparency of reading empties, for the stream run_case produces *)
+Lemma C18_legacygrid_atomic_continue_layered c n k s L o s' e rest :
+  wf c -> Agree c s -> step c s o = (s', Err e) ->
+  lrun_obs c n k (s', L) rest = lrun_obs c n k (s, L) rest.
+Proof.
+  intros Hwf Ha Hst. destruct (step_sound c s o s' (Err e) Hwf Ha Hst) as [Ha' H].
+  destruct (H I) as [->| ->]; [reflexivity|].
+  apply lrun_obs_sim; [exact Hwf|exact Ha'|exact Ha|apply sim_sym, sim_build].
+Qed.
+
+Lemma empties_read_transparent_layered c n k ops rest :
+  wf c -> let sl := lrun c k (init, linit) ops in
+  lrun_obs c n k (fst (lstep c k sl ReadEmpties)) rest = lrun_obs c n k sl rest /\
+  lrun_obs c n k (fst (lstep c k sl ExistsEmpty)) rest = lrun_obs c n k sl rest.
+Proof.
+  intros Hwf sl. pose proof (agree_layered_history c k ops Hwf) as Ha. fold sl in Ha.
+  destruct sl as [s L]. cbn [fst] in Ha. cbn [lstep step fst snd].
+  split; (apply lrun_obs_sim; [exact Hwf|apply build_empties_agree; exact Ha|exact Ha|apply sim_sym, sim_build]).
+Qed.
